@@ -27,6 +27,7 @@ type KStats struct {
 	HarnessErr  string           `json:"harness_err"`
 	Validated   int64            `json:"validated"`
 	Extra       map[string]float64 `json:"extra"`
+	Payload     json.RawMessage  `json:"payload,omitempty"`
 }
 
 // KFinding is a finding of a K/G engine together with its replayable input.
@@ -96,7 +97,7 @@ type KSummary struct {
 	Wall        float64
 }
 
-func RunSharded(prop, tier string, units []interface{}, budget time.Duration) *KSummary {
+func RunSharded(prop, tier string, units []interface{}, budget time.Duration, cb ...func(u interface{}, r *KStats)) *KSummary {
 	t0 := time.Now()
 	deadline := t0.Add(budget)
 	sum := &KSummary{Clauses: map[string]int64{}, Exhaustive: true, UnitsTotal: len(units), Extra: map[string]float64{}}
@@ -161,6 +162,9 @@ func RunSharded(prop, tier string, units []interface{}, budget time.Duration) *K
 					continue
 				}
 				mu.Lock()
+				for _, f := range cb {
+					f(u, &r)
+				}
 				sum.UnitsDone++
 				sum.Evaluations += r.Evaluations
 				sum.Sequences += r.Sequences
